@@ -24,7 +24,7 @@ const (
 
 var propRules = map[string]*PropSpec{
 	"C01": {
-		Rules:       []string{"A1.kernel", "A6.kernel", "F1", "F8.bitmap", "F8.run", "F10", "F3.32", "A1.api32", "A2.32", "A3.32", "F11", "F8.scratch", "G1"},
+		Rules:       []string{"A1.kernel", "A6.kernel", "F1", "F8.bitmap", "F8.run", "F10", "F3.32", "A1.api32", "A2.32", "A3.32", "F11", "F8.scratch", "G1", "F13.32"},
 		Explanation: explBase + " C01: kernels never write operands, results are fresh, every kind pairing is dispatched, results are re-typed at the 4096 threshold and run results re-minimised, empty results are elided, x.Op(x) is guarded.",
 		Decided: []string{
 			"kernels and predicates use no package-level scratch memory (concurrent queries on unrelated bitmaps cannot interfere)",
@@ -42,9 +42,10 @@ var propRules = map[string]*PropSpec{
 		Technique:  techMix,
 	},
 	"C02": {
-		Rules:       []string{"A2.32", "A3.32", "F3.32", "F8.bitmap", "F8.run", "F5", "F8.scratch"},
+		Rules:       []string{"A2.32", "A3.32", "F3.32", "F8.bitmap", "F8.run", "F5", "F8.scratch", "A4", "F13.32"},
 		Explanation: explBase + " C02: every mutator obtains its container through the copy-before-write gate, stores only owned containers, drops emptied chunks, keeps flags aligned with moved containers, re-types/minimises results and inserts at a position searched in the same table.",
 		Decided: []string{
+			"the container returned by an in-place kernel applied to a slot's container is stored back into the table (CheckedAdd/CheckedRemove/Add/Remove/AddRange ...)",
 			"every payload write of Add/CheckedAdd/Remove/CheckedRemove/AddRange/RemoveRange/Flip/AddMany goes through an owned container (gate or fresh)",
 			"every slot store keeps container and copy-on-write flag together (including removeAtIndex/insert shifts)",
 			"Remove/CheckedRemove/RemoveRange/Flip test emptiness of every may-empty result and drop the chunk",
@@ -74,9 +75,11 @@ var propRules = map[string]*PropSpec{
 		Technique:  "static analysis: CFG reachability after the stop edge (go/ssa), AST type-switch exhaustiveness, ownership summaries",
 	},
 	"C05": {
-		Rules:       []string{"B1", "B2", "B5", "L2", "L5", "A4", "F8.bitmap", "A8", "G1", "F8.scratch", "F2.repair", "R1", "U3", "PT2", "L1"},
+		Rules:       []string{"B1", "B2", "B5", "L2", "L5", "A4", "F8.bitmap", "A8", "G1", "F8.scratch", "F2.repair", "R1", "U3", "PT2", "L1", "B7"},
 		Explanation: explBase + " C05: error propagation on every encode/decode path, byte accounting of writers and readers, bounded reads, agreement of size prediction / writer / reader on the offset-header predicate and payload sizes, and flagging of zero-copy payloads.",
 		Decided: []string{
+			"no decoder wraps the caller's stream in a read-ahead buffer (a reader consumes exactly its own bytes)",
+			"pooled readers are not touched after they went back to the pool, and only values of the pool's own type are put back",
 			"ToBase64 and FromBase64 use the same alphabet",
 			"every decoder resets or reassigns all three table arrays of the receiver on every successful path (decoding into a used bitmap keeps nothing)",
 			"the copying decoders (ReadFrom, UnmarshalBinary, FromBase64) keep no pointer into the caller's slice; only the documented zero-copy constructors do",
@@ -93,7 +96,7 @@ var propRules = map[string]*PropSpec{
 		Technique:  techErr + "; affine size expressions over go/ssa",
 	},
 	"C06": {
-		Rules:       []string{"L1", "L2", "L5", "L6", "B5", "B1", "U3", "PT2"},
+		Rules:       []string{"L1", "L2", "L5", "L6", "B5", "B1", "U3", "PT2", "A8", "R1", "B7"},
 		Explanation: explBase + " C06: format constants, header predicate, payload sizes and byte order are compared with the published RoaringFormatSpec values transcribed in the model.",
 		Decided: []string{
 			"ToBytes/MarshalBinary results are not backed by pooled memory",
@@ -104,7 +107,7 @@ var propRules = map[string]*PropSpec{
 		Technique:  "static analysis: constant folding (go/constant), truth tables over normalised branch conditions, affine expression comparison",
 	},
 	"C07": {
-		Rules:       []string{"A1.kernel", "A6.kernel", "A2.32", "A3.32", "A2.64", "A3.64", "A1.api32", "A1.api64", "A1.slices", "F9", "F5", "A7"},
+		Rules:       []string{"A1.kernel", "A6.kernel", "A2.32", "A3.32", "A2.64", "A3.64", "A1.api32", "A1.api64", "A1.slices", "F9", "F5", "A7", "A9"},
 		Explanation: explBase + " C07 (strongest claim): a container reachable from two tables is flagged in both before either writes; every payload write goes through an owned container; every slot store is an owned store, a flagged move or a certified clone-or-share hand-off; aggregates return independent bitmaps; read-only functions change neither bitmaps nor the caller's slice.",
 		Decided: []string{
 			"write gate: every call that may write a container's payload has an owned receiver (32-bit containers and 64-bit buckets)",
@@ -129,7 +132,7 @@ var propRules = map[string]*PropSpec{
 		Technique:  "static analysis: taint propagation of caller-owned slices over go/ssa + ownership typestate",
 	},
 	"C09": {
-		Rules:       []string{"F3.32", "F8.bitmap", "F8.run", "F2", "V1", "V2", "A6.kernel", "A2.32", "A3.32", "F8.scratch", "A2.64", "A3.64", "F3.64", "L2", "L5", "F2.repair"},
+		Rules:       []string{"F3.32", "F8.bitmap", "F8.run", "F2", "V1", "V2", "A6.kernel", "A2.32", "A3.32", "F8.scratch", "A2.64", "A3.64", "F3.64", "L2", "L5", "F2.repair", "R1", "B5", "F13.32", "A9"},
 		Explanation: explBase + " C09: the producer side of each Validate conjunct that has a structural form (no empty chunk stored, array/bitmap threshold, runs minimised, lazy cardinality repaired) and the validator's own conjunct table.",
 		Decided: []string{
 			"roaring64 buckets obey the same ownership and no-empty-bucket rules",
@@ -139,7 +142,7 @@ var propRules = map[string]*PropSpec{
 		Technique:  techMix,
 	},
 	"C10": {
-		Rules:       []string{"B1", "B4", "B5", "T1", "V1", "V2", "U1", "G1", "U3", "L4", "B6", "UNS1"},
+		Rules:       []string{"B1", "B4", "B5", "T1", "V1", "V2", "U1", "G1", "U3", "L4", "B6", "UNS1", "PT2"},
 		Explanation: explBase + " C10: decoder error discipline, Must* wrappers, bounded reads, size fields bounded before allocation, validator conjuncts (incl. the wrap bound on every run), no 16-bit arithmetic in the frozen reader.",
 		Decided: []string{
 			"FrozenView evaluates all 256 type-code values: each is either built or rejected",
@@ -152,7 +155,7 @@ var propRules = map[string]*PropSpec{
 		Technique:  techErr + "; taint of decoded sizes",
 	},
 	"C11": {
-		Rules:       []string{"F9", "F2", "A1.api32", "A1.slices", "A2.32", "A3.32", "A6.kernel", "U1", "F8.scratch", "A2.64", "A3.64", "F2.repair", "U3", "PT2", "P6"},
+		Rules:       []string{"F9", "F2", "A1.api32", "A1.slices", "A2.32", "A3.32", "A6.kernel", "U1", "F8.scratch", "A2.64", "A3.64", "F2.repair", "U3", "PT2", "P6", "P2"},
 		Explanation: explBase + " C11: singleton behaviour of the aggregate siblings, lazy->repair discipline, inputs and the caller's slice unchanged, scratch containers never end up in the result.",
 		Decided: []string{
 			"roaring64 aggregates store only owned or properly shared buckets",
@@ -161,9 +164,11 @@ var propRules = map[string]*PropSpec{
 		Technique:  techMix,
 	},
 	"C12": {
-		Rules:       []string{"P1", "P3", "P4", "PT", "A1.api32", "A2.32", "A3.32", "G1", "U3", "PT2", "P6"},
+		Rules:       []string{"P1", "P3", "P4", "PT", "A1.api32", "A2.32", "A3.32", "G1", "U3", "PT2", "P6", "A2.64", "A3.64", "P2", "A1.bsi"},
 		Explanation: explBase + " C12: protocol skeleton only: WaitGroup pairing, single close by the creator, range-workers released on every path, pool typestate, workers never change input contents.",
 		Decided: []string{
+			"no worker goroutine assigns a variable captured from its spawner (results travel over channels, atomics or distinct slice elements)",
+			"the task object shared by BSI workers is never written by them",
 			"no producer/consumer cycle through the coordinator: work is fed from a goroutine of its own, or the workers' per-item results are drained by another goroutine",
 			"memory handed to a sync.Pool is not touched again until a new value is obtained, and nothing derived from a pooled object is returned",
 			"no library function writes package-level state (shared by all goroutines)",
@@ -172,7 +177,7 @@ var propRules = map[string]*PropSpec{
 		Technique:  "static analysis: goroutine/channel/WaitGroup/pool skeleton rules over go/ssa CFG (must-pass-through, at-most-once)",
 	},
 	"C13": {
-		Rules:       []string{"L4", "L1", "B1", "B3", "A4", "T1", "R1", "B6", "UNS1"},
+		Rules:       []string{"L4", "L1", "B1", "B3", "A4", "T1", "R1", "B6", "UNS1", "G1"},
 		Explanation: explBase + " C13: the three frozen writers, the size predictor and the reader agree on type codes, count fields, element sizes and arena order; FreezeTo checks the buffer before writing; errors propagate; the view is flagged.",
 		Decided: []string{
 			"the frozen view's container table and headers live in typed (scanned) memory",
@@ -182,7 +187,7 @@ var propRules = map[string]*PropSpec{
 		Technique:  "static analysis: sibling table extraction from type switches (AST + go/constant), dominance",
 	},
 	"C14": {
-		Rules:       []string{"F8.run", "F8.bitmap", "F3.32", "L7", "F8.scratch", "A2.32", "A3.32", "F2.repair"},
+		Rules:       []string{"F8.run", "F8.bitmap", "F3.32", "L7", "F8.scratch", "A2.32", "A3.32", "F2.repair", "F13.32"},
 		Explanation: explBase + " C14: the representation-minimisation clause the bound relies on, and the documented constants of BoundSerializedSizeInBytes.",
 		Decided: []string{
 			"containers are never shared unflagged (a write through a stale flag would corrupt another bitmap's chunk and its size)",
@@ -191,7 +196,7 @@ var propRules = map[string]*PropSpec{
 		Technique:  techMix,
 	},
 	"C15": {
-		Rules:       []string{"U1", "A1.api32", "F3.32"},
+		Rules:       []string{"U1", "A1.api32", "F3.32", "F8.bitmap", "F8.run", "F2"},
 		Explanation: explBase + " C15: kernels can express the out-of-chunk sentinels (no 16-bit wrap in the neighbour kernels and drivers) and the queries are pure. Everything else about these functions is value-level.",
 		Decided: []string{
 			"no mutator leaves an empty chunk behind (the drivers ask each chunk for its minimum/maximum and ignore the error)",
@@ -200,23 +205,24 @@ var propRules = map[string]*PropSpec{
 		Technique:  "static analysis: integer-width rule over go/ssa with a triaged allow-list; ownership summaries",
 	},
 	"C16": {
-		Rules:       []string{"A1.api32", "A3.32", "A6.kernel", "F5", "F6", "A4", "F3.32", "F8.bitmap", "F8.run", "F8.scratch", "B6"},
+		Rules:       []string{"A1.api32", "A3.32", "A6.kernel", "F5", "F6", "A4", "F3.32", "F8.bitmap", "F8.run", "F8.scratch", "B6", "A9"},
 		Explanation: explBase + " C16: AddOffset/Flip/ToDense leave b unchanged; results hold only fresh or properly shared containers; static Flip inserts at the answer's index; addOffset nil discipline; FromDense(no copy) never writes the caller's words; shifted parts are re-typed.",
 		Decided: []string{
+			"the two halves produced by addOffset do not share spare capacity of one allocation",
 			"FromDense never consults cap() of the caller's words (nothing beyond len is read)",
 			"AddOffset/AddOffset64/Flip/ToDense/WriteDenseTo never change their bitmap argument", "AddOffset64 and static Flip store only fresh containers or certified hand-offs", "static Flip inserts with an index searched in the answer", "addOffset never returns a typed nil inside the container interface", "FromDense without copy flags the container whenever its payload is the caller's slice", "Flip drops empty results; addOffset parts are returned in their cheapest representation"},
 		NotDecided: []string{"offset/carry arithmetic", "dense bit layout", "floor division for negative offsets"},
 		Technique:  techMix,
 	},
 	"C17": {
-		Rules:       []string{"A2.64", "A3.64", "F3.64", "F5", "F9", "A1.api64", "A5", "F12", "P6"},
+		Rules:       []string{"A2.64", "A3.64", "F3.64", "F5", "F9", "A1.api64", "A5", "F12", "P6", "P2"},
 		Explanation: explBase + " C17: the 64-bit bitmap's bucket table obeys the same ownership discipline (bucket = container), drops emptied buckets, inserts at the right index and its aggregates return fresh bitmaps.",
 		Decided:     []string{"every bucket write goes through an owned bucket (gate / fresh)", "every bucket store is owned / moved with its flag / cloned", "every may-empty bucket operation is followed by an emptiness test", "insertion index searched in the destination table (static Flip)", "FastOr/FastAnd/ParOr of one bitmap return a fresh bitmap", "read-only API never changes its arguments"},
 		NotDecided:  []string{"per-bucket range splitting", "Rank/Select accumulation", "iterator arithmetic", "absence of panics in general"},
 		Technique:   techOwn,
 	},
 	"C18": {
-		Rules:       []string{"B1", "B2", "B5", "T1", "L1", "V1", "F3.64", "A8", "G1", "R1", "U3"},
+		Rules:       []string{"B1", "B2", "B5", "T1", "L1", "V1", "F3.64", "A8", "G1", "R1", "U3", "PT2", "B7"},
 		Explanation: explBase + " C18: error propagation and byte accounting of the 64-bit writers/readers, bounded reads, the bound on the bucket count before allocation, agreement of writer/readers/size predictor on the framing, validator wiring, no empty bucket stored.",
 		Decided: []string{
 			"every decoder resets or reassigns all three table arrays of the receiver on every successful path (decoding into a used bitmap keeps nothing)",
@@ -227,7 +233,7 @@ var propRules = map[string]*PropSpec{
 		Technique:  techErr,
 	},
 	"C19": {
-		Rules:       []string{"PC1", "PC2", "B1", "P1", "A7", "U3", "A3.bsi"},
+		Rules:       []string{"PC1", "PC2", "B1", "P1", "A7", "U3", "A3.bsi", "A8", "P2"},
 		Explanation: explBase + " C19: every whole-index operation touches every plane including the sign plane; (un)marshal errors propagate; per-plane goroutines are joined.",
 		Decided: []string{
 			"planes of the 32-bit index are freshly built bitmaps, never a caller's bitmap (Add/addDigit, ParOr, UnmarshalBinary, NewBSIRetainSet)",
@@ -236,9 +242,10 @@ var propRules = map[string]*PropSpec{
 		Technique:  "static analysis: loop-bound vs slice-length agreement over go/ssa; error-flow rules",
 	},
 	"C20": {
-		Rules:       []string{"A1.bsi", "P1", "U3", "A3.bsi"},
+		Rules:       []string{"A1.bsi", "P1", "U3", "A3.bsi", "P2"},
 		Explanation: explBase + " C20: queries never change the index, returned bitmaps are never the index's internal bitmaps, fan-out goroutines are joined.",
 		Decided: []string{
+			"worker goroutines assign no captured variable; the shared task is read-only for them",
 			"comparison constants (*big.Int, task fields) are never overwritten by the functions that receive them",
 			"no query ignores one of its parameters (found-set, operator, bounds) apart from two named, justified cases",
 			"no BSI query changes the contents of the index's planes or existence bitmap", "no query returns a pointer to an internal bitmap (eBM / bA[i]) of the index", "parallel executors pair every goroutine with WaitGroup.Done"},
